@@ -494,7 +494,9 @@ func typeAssert(n *node, withResult, withOk bool) {
 				}
 
 				if withResult {
-					value0(f).Set(genInterfaceWrapper(val.node, rtype)(f))
+					// Wrap the value held by the interface, and not the operand it was set from.
+					held := &node{interp: n.interp, scope: val.node.scope, pos: n.pos, kind: identExpr, typ: val.node.typ, rval: val.value}
+					value0(f).Set(genInterfaceWrapper(held, rtype)(f))
 				}
 				ok = true
 				return next
@@ -1308,6 +1310,21 @@ func genInterfaceWrapper(n *node, typ reflect.Type) func(*frame) reflect.Value {
 		if vi, ok := v.Interface().(valueInterface); ok {
 			n2 = vi.node
 		}
+		// An interface value holds a copy of the value it is set from: the methods
+		// of the wrapper must not see the later changes of a variable.
+		rn, rv := n, v // node and value of the receiver of the methods
+		for {
+			vi, ok := rv.Interface().(valueInterface)
+			if !ok {
+				break
+			}
+			rv = vi.value
+		}
+		if rv.IsValid() && rv.CanAddr() {
+			c := reflect.New(rv.Type()).Elem()
+			c.Set(rv)
+			rn, rv = nil, c
+		}
 		v = getConcreteValue(v)
 		w := reflect.New(wrap).Elem()
 		w.Field(0).Set(v)
@@ -1325,14 +1342,14 @@ func genInterfaceWrapper(n *node, typ reflect.Type) func(*frame) reflect.Value {
 				m2, i2 := n2.typ.lookupMethod(names[i])
 				if m2 != nil {
 					nod := *m2
-					nod.recv = &receiver{n, v, i2}
+					nod.recv = &receiver{rn, rv, i2}
 					w.Field(i + 1).Set(genFunctionWrapper(&nod)(f))
 					continue
 				}
 				panic(n.cfgErrorf("method not found: %s", names[i]))
 			}
 			nod := *m
-			nod.recv = &receiver{n, v, indexes[i]}
+			nod.recv = &receiver{rn, rv, indexes[i]}
 			w.Field(i + 1).Set(genFunctionWrapper(&nod)(f))
 		}
 		return w
